@@ -263,6 +263,21 @@ func (v *VecDense) CopyVec(a Vector) int {
 		src.N = n
 		dst := v.mat
 		dst.N = n
+		if n == 0 {
+			return 0
+		}
+		if src.Inc != dst.Inc {
+			// The direction chosen below is only
+			// safe for equal increments.
+			v.checkOverlap(src)
+		}
+		if dst.Inc != 1 && offset(dst.Data, src.Data) < 0 {
+			// The source starts before the receiver: copy
+			// backwards so that elements they share are
+			// read before they are overwritten. For unit
+			// increments blas64.Copy uses the built-in copy.
+			src.Inc, dst.Inc = -src.Inc, -dst.Inc
+		}
 		blas64.Copy(src, dst)
 		return n
 	}
